@@ -135,10 +135,13 @@ pub async fn type_definition(
                                 Entry::Procedure(_) => { /* no type definition */ }
                                 Entry::Variable(v) | Entry::Parameter(v) => {
                                     if let Some(DataType::Array { creator, .. }) = &v.data_type {
-                                        let entry =
-                                            doc.table.lookup(creator).expect("Invalid creator");
-                                        match entry {
-                                            GlobalEntry::Type(t) => {
+                                        // The creator of an anonymous array type is the variable
+                                        // itself, which is no type declaration
+                                        // (even if a global of that name exists).
+                                        if let Some(entry @ GlobalEntry::Type(t)) =
+                                            doc.table.lookup(creator)
+                                        {
+                                            if t.data_type == v.data_type {
                                                 return Ok(Some(Location {
                                                     uri,
                                                     range: as_pos_range(
@@ -149,7 +152,6 @@ pub async fn type_definition(
                                                     ),
                                                 }));
                                             }
-                                            _ => panic!("Creator must be a type"),
                                         }
                                     }
                                     /* cannot look up primitive types */
